@@ -47,6 +47,9 @@ pub enum ExpAck {
     PubComp(u16),
     /// PUBREL the broker owes in reply to a client's PUBREC
     PubRel(u16),
+    /// PUBREL of a previous connection that the broker may send again after a session resume
+    /// (no listed property requires it, so it is accepted but not demanded)
+    PubRelResumed(u16),
     SubAck(u16, Vec<u8>),
     UnsubAck(u16),
     PingResp,
@@ -331,7 +334,7 @@ impl Model {
                 c.frontier = vec![FState { pos, attr: Vec::new() }];
                 // the broker owes the PUBRELs it had not seen completed
                 for id in s.pubrec_waiting.iter() {
-                    c.expected_acks.push_back(ExpAck::PubRel(*id));
+                    c.expected_acks.push_back(ExpAck::PubRelResumed(*id));
                 }
                 c.pubrec_waiting = s.pubrec_waiting;
             }
